@@ -439,20 +439,36 @@ Proof.
   destruct Q as [S _]; [unfold quiet; auto|exact S].
 Qed.
 
+Lemma pass_deterministic fuel toks c c' r r' : c = c' -> run_pass fuel toks c = r -> run_pass fuel toks c' = r' -> r = r'.
+Proof. intros; subst; reflexivity. Qed.
+
 (* ------------------------------------------------------------------ the pass loop *)
 Lemma stop_rule_counts_symbols : stop_needs_no_new_symbols = true.
 Proof. reflexivity. Qed.
 
+(* every segment is as Segment::reset / Segment::new leaves it *)
+Definition fresh_segs (c : ctx) : Prop :=
+  forall name s, seg_get (segments c) name = Some s -> g_writes s = [] /\ g_has_data s = false.
+
+Lemma seg_get_map_reset l name s :
+  seg_get (map (fun ns => (fst ns, seg_reset (snd ns))) l) name = Some s -> g_writes s = [] /\ g_has_data s = false.
+Proof.
+  induction l as [|[k x] r IH]; cbn [map seg_get fst snd]; [discriminate|]. destruct (ident_eqb k name); [|exact IH].
+  intro H. inversion H; subst. split; reflexivity.
+Qed.
+Lemma fresh_next_pass c : fresh_segs (next_pass c).
+Proof. intros name s. unfold next_pass. cbn [segments]. apply seg_get_map_reset. Qed.
+
 Lemma pass_loop_done passes fuel o toks : forall c pu pe cf,
   pass_loop passes fuel o toks c pu pe = Done cf ->
-  g_trace c = [] -> g_vch c = 0%nat ->
-  exists c0, g_trace c0 = [] /\ g_vch c0 = 0%nat /\ run_pass fuel toks c0 = PassOk [] cf /\
+  g_trace c = [] -> g_vch c = 0%nat -> fresh_segs c ->
+  exists c0, g_trace c0 = [] /\ g_vch c0 = 0%nat /\ fresh_segs c0 /\ run_pass fuel toks c0 = PassOk [] cf /\
              undefined cf = [] /\ node_count (symbols cf) = node_count (symbols c0).
 Proof.
-  induction passes as [|n IH]; intros c pu pe cf H T V; cbn [pass_loop] in H; [discriminate|].
+  induction passes as [|n IH]; intros c pu pe cf H T V FS; cbn [pass_loop] in H; [discriminate|].
   destruct (run_pass fuel toks c) as [errors c1|f] eqn:ER; [|discriminate].
   destruct (segments c1) as [|sg sgs] eqn:ES.
-  - apply IH in H; auto.
+  - apply IH in H; auto using fresh_next_pass.
   - destruct ((match errors with [] => false | _ :: _ => true end) && diags_eqb errors pe); [discriminate|].
     destruct errors as [|e es].
     + rewrite stop_rule_counts_symbols in H. cbn [negb orb] in H.
@@ -462,19 +478,22 @@ Proof.
         -- inversion H; subst cf. exists c. repeat split; auto.
            rewrite negb_involutive in EN. apply Nat.eqb_eq in EN. exact EN.
         -- destruct ((negb unknown_needs_nonempty || negb true) && set_eqb [] pu); [discriminate|].
-           apply IH in H; auto.
+           apply IH in H; auto using fresh_next_pass.
       * cbn [andb] in H. destruct ((negb unknown_needs_nonempty || negb false) && set_eqb (u :: us) pu); [discriminate|].
-        apply IH in H; auto.
-    + apply IH in H; auto.
+        apply IH in H; auto using fresh_next_pass.
+    + apply IH in H; auto using fresh_next_pass.
 Qed.
+
+Lemma fresh_initial o : fresh_segs (initial_ctx o).
+Proof. intros name s. unfold initial_ctx. cbn [segments seg_get]. discriminate. Qed.
 
 (* C02_fixed_point *)
 Theorem fixed_point passes fuel o toks cf :
   codegen passes fuel o toks = Done cf -> no_silent_change cf -> FixedPoint cf.
 Proof.
   unfold codegen, no_silent_change, FixedPoint. intros H V.
-  apply pass_loop_done in H; [|reflexivity|reflexivity].
-  destruct H as (c0 & T0 & V0 & HR & U & N).
+  apply pass_loop_done in H; [|reflexivity|reflexivity|apply fresh_initial].
+  destruct H as (c0 & T0 & V0 & _ & HR & U & N).
   destruct (run_pass_good _ _ _ _ _ HR) as [_ (new & TN & Q)].
   rewrite T0, app_nil_r in TN. rewrite TN.
   destruct Q as [S F]; [unfold quiet; repeat split; auto; congruence|].
@@ -487,6 +506,6 @@ Theorem done_is_stable passes fuel o toks cf :
   undefined cf = [] /\
   exists c0, run_pass fuel toks c0 = PassOk [] cf /\ g_trace c0 = [] /\ node_count (symbols cf) = node_count (symbols c0).
 Proof.
-  unfold codegen. intro H. apply pass_loop_done in H; [|reflexivity|reflexivity].
-  destruct H as (c0 & T0 & V0 & HR & U & N). split; [exact U|]. exists c0. auto.
+  unfold codegen. intro H. apply pass_loop_done in H; [|reflexivity|reflexivity|apply fresh_initial].
+  destruct H as (c0 & T0 & V0 & _ & HR & U & N). split; [exact U|]. exists c0. auto.
 Qed.
